@@ -1,0 +1,173 @@
+//! Thin wrappers around crate-private production components for component-level monitors.
+//!
+//! Every wrapper *calls* the production code; none re-implements it.
+
+pub use crate::scheduler::verif_api::{Cursors, Deps, RawCursor, SchedulerDump, Slot, TxDump};
+
+use crate::{
+    ParallelState, TxVersion,
+    beneficiary::{
+        Beneficiary, BeneficiaryReadVersion, DeferredBeneficiaryReward, SpeculativeResult,
+    },
+    parallel_state::{ParallelStateCommit, ParallelStateView},
+};
+use revm::{DatabaseCommit, DatabaseRef};
+use revm_context::result::{ExecutionResult, Output, ResultAndState, ResultGas, SuccessReason};
+use revm_primitives::{Address, B256, Bytes, U256};
+use revm_state::{Account, AccountInfo, Bytecode, EvmState};
+
+/// The production block beneficiary history.
+#[derive(Debug)]
+pub struct History {
+    address: Address,
+    inner: Beneficiary,
+}
+
+/// One resolved beneficiary read with the opaque production version used for validation.
+#[derive(Clone, Debug)]
+pub struct HistoryRead {
+    /// Resolved account.
+    pub account: Option<AccountInfo>,
+    /// Contributing `(txid, incarnation)` versions, newest first.
+    pub origins: Vec<(usize, usize)>,
+    version: BeneficiaryReadVersion,
+}
+
+fn empty_result() -> ExecutionResult {
+    ExecutionResult::Success {
+        reason: SuccessReason::Stop,
+        gas: ResultGas::default(),
+        logs: Vec::new(),
+        output: Output::Call(Bytes::new()),
+    }
+}
+
+#[allow(missing_docs)]
+impl History {
+    pub fn new(address: Address, anchor: Option<AccountInfo>, block_size: usize) -> Self {
+        Self { address, inner: Beneficiary::new(address, anchor, block_size) }
+    }
+
+    pub fn resolve_before(&self, txid: usize) -> Result<HistoryRead, usize> {
+        self.inner.resolve_before(txid).map(|read| {
+            let (account, version) = read.into_parts();
+            HistoryRead { account, origins: version.verif_origins(), version }
+        })
+    }
+
+    /// Publish `(txid, incarnation)` with a deferred (non-zero) reward.
+    pub fn record_reward(&self, txid: usize, incarnation: usize, amount: U256) -> bool {
+        let result = SpeculativeResult::deferred(
+            ResultAndState { result: empty_result(), state: EvmState::default() },
+            DeferredBeneficiaryReward::verif_new(amount),
+        );
+        self.inner.record_execution(&TxVersion::new(txid, incarnation), &result)
+    }
+
+    /// Publish `(txid, incarnation)` leaving the beneficiary untouched.
+    pub fn record_unchanged(&self, txid: usize, incarnation: usize) -> bool {
+        let result = SpeculativeResult::settled(ResultAndState {
+            result: empty_result(),
+            state: EvmState::default(),
+        });
+        self.inner.record_execution(&TxVersion::new(txid, incarnation), &result)
+    }
+
+    /// Publish `(txid, incarnation)` with an absolute beneficiary value (`None` deletes it).
+    pub fn record_snapshot(
+        &self,
+        txid: usize,
+        incarnation: usize,
+        info: Option<AccountInfo>,
+    ) -> bool {
+        let mut account = Account::from(info.clone().unwrap_or_default());
+        account.mark_touch();
+        if info.is_none() {
+            account.mark_selfdestruct();
+        }
+        let mut state = EvmState::default();
+        state.insert(self.address, account);
+        let result = SpeculativeResult::settled(ResultAndState { result: empty_result(), state });
+        self.inner.record_execution(&TxVersion::new(txid, incarnation), &result)
+    }
+
+    pub fn record_estimate(&self, txid: usize, incarnation: usize) -> bool {
+        self.inner.record_estimate(&TxVersion::new(txid, incarnation))
+    }
+
+    pub fn invalidate(&self, txid: usize, incarnation: usize) -> bool {
+        self.inner.invalidate(&TxVersion::new(txid, incarnation))
+    }
+
+    /// Returns `(valid, dependency)`.
+    pub fn validate(&self, txid: usize, read: &HistoryRead) -> (bool, Option<usize>) {
+        let validation = self.inner.validate(txid, &read.version);
+        (validation.is_valid(), validation.dependency())
+    }
+
+    /// Apply one deferred reward with the production checked-add rule.
+    pub fn apply_reward(amount: U256, account: Option<AccountInfo>) -> AccountInfo {
+        DeferredBeneficiaryReward::verif_new(amount).apply_to(account)
+    }
+}
+
+/// Shared reader handle exactly as speculative workers hold it.
+pub struct SplitView<'a, DB>(ParallelStateView<'a, DB>);
+
+impl<DB> Clone for SplitView<'_, DB> {
+    fn clone(&self) -> Self {
+        *self
+    }
+}
+impl<DB> Copy for SplitView<'_, DB> {}
+
+impl<DB> std::fmt::Debug for SplitView<'_, DB> {
+    fn fmt(&self, f: &mut std::fmt::Formatter<'_>) -> std::fmt::Result {
+        f.debug_struct("SplitView").finish_non_exhaustive()
+    }
+}
+
+impl<DB: DatabaseRef> DatabaseRef for SplitView<'_, DB> {
+    type Error = DB::Error;
+    fn basic_ref(&self, address: Address) -> Result<Option<AccountInfo>, Self::Error> {
+        self.0.basic_ref(address)
+    }
+    fn code_by_hash_ref(&self, code_hash: B256) -> Result<Bytecode, Self::Error> {
+        self.0.code_by_hash_ref(code_hash)
+    }
+    fn storage_ref(&self, address: Address, index: U256) -> Result<U256, Self::Error> {
+        self.0.storage_ref(address, index)
+    }
+    fn block_hash_ref(&self, number: u64) -> Result<B256, Self::Error> {
+        self.0.block_hash_ref(number)
+    }
+}
+
+/// Commit handle exactly as the ordered-commit thread holds it.
+pub struct SplitCommit<'a, DB>(ParallelStateCommit<'a, DB>);
+
+impl<DB> std::fmt::Debug for SplitCommit<'_, DB> {
+    fn fmt(&self, f: &mut std::fmt::Formatter<'_>) -> std::fmt::Result {
+        f.debug_struct("SplitCommit").finish_non_exhaustive()
+    }
+}
+
+impl<DB: DatabaseRef> SplitCommit<'_, DB> {
+    /// Apply one finalized transaction state (the production `DatabaseCommit::commit`).
+    pub fn commit(&mut self, state: EvmState) {
+        self.0.commit(state)
+    }
+    /// Read through the commit handle (the production nonce / reward lookups use this).
+    pub fn basic_ref(&self, address: Address) -> Result<Option<AccountInfo>, DB::Error> {
+        self.0.basic_ref(address)
+    }
+}
+
+/// Split `state` exactly as `parallel_execute_inner` does and run `f` with both halves.
+pub fn with_split<DB: DatabaseRef, R>(
+    state: &mut ParallelState<DB>,
+    f: impl FnOnce(SplitView<'_, DB>, SplitCommit<'_, DB>) -> R,
+) -> R {
+    let (view, commit) = state.split_for_parallel();
+    f(SplitView(view), SplitCommit(commit))
+}
